@@ -80,39 +80,43 @@ PREFIX = {
 }
 
 
-def gen_constants() -> str:
-    out = [
-        "-- GENERATED by harness/gen.py from the repo working tree. Do not edit.",
-        "namespace Aiortc.Gen",
-        "",
-    ]
-    for modname, names in INT_CONSTANTS.items():
-        mod = importlib.import_module(modname)
-        out.append(f"-- {modname}")
-        for n in names:
-            if not hasattr(mod, n):
-                raise CannotTranslate(f"constant {modname}.{n} no longer exists")
-            v = getattr(mod, n)
-            if isinstance(v, bool) or not isinstance(v, int):
-                raise CannotTranslate(f"constant {modname}.{n} is not an int: {v!r}")
-            lean_name = PREFIX[modname] + n
-            if v < 0:
-                out.append(f"def {lean_name} : Int := {v}")
-            else:
-                out.append(f"def {lean_name} : Nat := {v}")
-        out.append("")
-    out += gen_tables()
-    out.append("end Aiortc.Gen")
-    return "\n".join(out) + "\n"
+UNIT_OF_MODULE = {
+    "aiortc.rtcsctptransport": "Sctp",
+    "aiortc.rtp": "Rtp",
+    "aiortc.jitterbuffer": "Jitter",
+    "aiortc.rate": "Rate",
+    "aiortc.codecs.h264": "Codec",
+    "aiortc.codecs.vpx": "Codec",
+    "aiortc.rtcpeerconnection": "Pc",
+}
+
+
+def const_lines(modname: str) -> list[str]:
+    out = []
+    names = INT_CONSTANTS[modname]
+    mod = importlib.import_module(modname)
+    out.append(f"-- {modname}")
+    for n in names:
+        if not hasattr(mod, n):
+            raise CannotTranslate(f"constant {modname}.{n} no longer exists")
+        v = getattr(mod, n)
+        if isinstance(v, bool) or not isinstance(v, int):
+            raise CannotTranslate(f"constant {modname}.{n} is not an int: {v!r}")
+        lean_name = PREFIX[modname] + n
+        if v < 0:
+            out.append(f"def {lean_name} : Int := {v}")
+        else:
+            out.append(f"def {lean_name} : Nat := {v}")
+    out.append("")
+    return out
 
 
 def lean_str(s: str) -> str:
     return '"' + s.replace("\\", "\\\\").replace('"', '\\"') + '"'
 
 
-def gen_tables() -> list[str]:
+def sctp_tables() -> list[str]:
     out = []
-    # SCTP chunk type ids, in CHUNK_CLASSES order
     sctp = importlib.import_module("aiortc.rtcsctptransport")
     pairs = [(cls.__name__, cls.type) for cls in sctp.CHUNK_CLASSES]
     out.append("-- aiortc.rtcsctptransport.CHUNK_CLASSES: (class name, chunk type id)")
@@ -124,12 +128,15 @@ def gen_tables() -> list[str]:
     for n, t in pairs:
         out.append(f"def CT_{n} : Nat := {t}")
     out.append("")
-    # association states
     out.append("-- RTCSctpTransport.State")
     for st in sctp.RTCSctpTransport.State:
         out.append(f"def SCTP_STATE_{st.name} : Nat := {st.value}")
     out.append("")
-    # SDP
+    return out
+
+
+def sdp_tables() -> list[str]:
+    out = []
     sdp = importlib.import_module("aiortc.sdp")
     out.append("-- aiortc.sdp")
     out.append("def DIRECTIONS : List String := [" + ", ".join(lean_str(d) for d in sdp.DIRECTIONS) + "]")
@@ -146,11 +153,16 @@ def gen_tables() -> list[str]:
     out.append("def FMTP_INT_PARAMETERS : List String := [" + ", ".join(lean_str(d) for d in sdp.FMTP_INT_PARAMETERS) + "]")
     out.append("def SSRC_INFO_ATTRS : List String := [" + ", ".join(lean_str(d) for d in sdp.SSRC_INFO_ATTRS) + "]")
     out.append("")
-    # full graphs of the finite direction functions
+    return out
+
+
+def pc_tables() -> list[str]:
+    out = []
+    sdp = importlib.import_module("aiortc.sdp")
     dirs = list(sdp.DIRECTIONS)
     try:
         from aiortc.rtcpeerconnection import and_direction, or_direction, reverse_direction
-        out.append("-- full graphs of and_direction / or_direction / reverse_direction over DIRECTIONS")
+        out.append("-- full graphs of and_direction / or_direction / reverse_direction over sdp.DIRECTIONS")
         out.append(
             "def AND_DIRECTION : List (String × String × String) := ["
             + ", ".join(f"({lean_str(a)}, {lean_str(b)}, {lean_str(and_direction(a, b))})" for a in dirs for b in dirs)
@@ -169,7 +181,11 @@ def gen_tables() -> list[str]:
     except Exception as exc:  # pragma: no cover
         raise CannotTranslate(f"direction graphs: {exc!r}")
     out.append("")
-    # DTLS / SRTP profile table
+    return out
+
+
+def dtls_tables() -> list[str]:
+    out = []
     dtls = importlib.import_module("aiortc.rtcdtlstransport")
     out.append("-- aiortc.rtcdtlstransport.SRTP_PROFILES: (openssl name, key length, salt length)")
     out.append(
@@ -186,8 +202,6 @@ def gen_tables() -> list[str]:
         + "]"
     )
     out.append("")
-    # jitter buffer parameters used by the receiver (AST of RTCRtpReceiver.__init__)
-    out += gen_receiver_jb_params()
     return out
 
 
@@ -222,20 +236,26 @@ def gen_receiver_jb_params() -> list[str]:
 # Python -> Lean translator for pure integer functions
 # ---------------------------------------------------------------------------------------
 
-FUNCS = [
-    # (module, python name, lean name)
-    ("aiortc.utils", "uint16_add", "uint16_add"),
-    ("aiortc.utils", "uint16_gt", "uint16_gt"),
-    ("aiortc.utils", "uint16_gte", "uint16_gte"),
-    ("aiortc.utils", "uint32_add", "uint32_add"),
-    ("aiortc.utils", "uint32_gt", "uint32_gt"),
-    ("aiortc.utils", "uint32_gte", "uint32_gte"),
-    ("aiortc.rtcsctptransport", "padl", "sctp_padl"),
-    ("aiortc.rtcsctptransport", "tsn_minus_one", "tsn_minus_one"),
-    ("aiortc.rtcsctptransport", "tsn_plus_one", "tsn_plus_one"),
-    ("aiortc.rtp", "padl", "rtp_padl"),
-    ("aiortc.rtp", "clamp_packets_lost", "clamp_packets_lost"),
-]
+FUNCS = {
+    # unit -> [(module, python name, lean name)]
+    "Serial": [
+        ("aiortc.utils", "uint16_add", "uint16_add"),
+        ("aiortc.utils", "uint16_gt", "uint16_gt"),
+        ("aiortc.utils", "uint16_gte", "uint16_gte"),
+        ("aiortc.utils", "uint32_add", "uint32_add"),
+        ("aiortc.utils", "uint32_gt", "uint32_gt"),
+        ("aiortc.utils", "uint32_gte", "uint32_gte"),
+    ],
+    "Sctp": [
+        ("aiortc.rtcsctptransport", "padl", "sctp_padl"),
+        ("aiortc.rtcsctptransport", "tsn_minus_one", "tsn_minus_one"),
+        ("aiortc.rtcsctptransport", "tsn_plus_one", "tsn_plus_one"),
+    ],
+    "Rtp": [
+        ("aiortc.rtp", "padl", "rtp_padl"),
+        ("aiortc.rtp", "clamp_packets_lost", "clamp_packets_lost"),
+    ],
+}
 
 
 class Tr:
@@ -434,23 +454,75 @@ class Tr:
         self.fail(node, "unsupported expression")
 
 
-def gen_serial() -> str:
-    out = [
-        "-- GENERATED by harness/gen.py (AST translation of the repo's pure integer functions).",
-        "-- Do not edit.  Python `int` ↦ Lean `Int`; `a & (2^k-1)` ↦ `a % 2^k`; `//`,`%` only by",
-        "-- positive constants (where Lean's Int `/`,`%` coincide with Python's floor semantics).",
-        "namespace Aiortc.Gen",
-        "",
-    ]
+HEADER = [
+    "-- GENERATED by harness/gen.py from the repo working tree. Do not edit.",
+    "-- Constants: current values of module attributes.  Functions: AST translation of the repo's pure",
+    "-- integer functions (Python `int` ↦ Lean `Int`; `a & (2^k-1)` ↦ `a % 2^k`; `//`,`%` only by positive",
+    "-- constants, where Lean's Int `/`,`%` coincide with Python's floor semantics).",
+    "namespace Aiortc.Gen",
+    "",
+]
+
+
+def func_lines(unit: str) -> list[str]:
+    out = []
     known: dict = {}
-    for modname, pyname, leanname in FUNCS:
+    for modname, pyname, leanname in FUNCS.get(unit, []):
         tr = Tr(modname, pyname, leanname, known)
         text, ty = tr.translate()
         out.append(f"-- {modname}.{pyname}")
         out.append(text)
         known[(modname, pyname)] = (leanname, ty)
-    out.append("end Aiortc.Gen")
-    return "\n".join(out) + "\n"
+    return out
+
+
+def unit_serial():
+    return func_lines("Serial")
+
+
+def unit_sctp():
+    return const_lines("aiortc.rtcsctptransport") + sctp_tables() + func_lines("Sctp")
+
+
+def unit_rtp():
+    return const_lines("aiortc.rtp") + func_lines("Rtp")
+
+
+def unit_jitter():
+    return const_lines("aiortc.jitterbuffer") + gen_receiver_jb_params()
+
+
+def unit_rate():
+    return const_lines("aiortc.rate")
+
+
+def unit_codec():
+    return const_lines("aiortc.codecs.h264") + const_lines("aiortc.codecs.vpx")
+
+
+def unit_sdp():
+    return sdp_tables()
+
+
+def unit_pc():
+    return const_lines("aiortc.rtcpeerconnection") + pc_tables()
+
+
+def unit_dtls():
+    return dtls_tables()
+
+
+UNITS = {
+    "Serial": unit_serial,
+    "Sctp": unit_sctp,
+    "Rtp": unit_rtp,
+    "Jitter": unit_jitter,
+    "Rate": unit_rate,
+    "Codec": unit_codec,
+    "Sdp": unit_sdp,
+    "Pc": unit_pc,
+    "Dtls": unit_dtls,
+}
 
 
 # ---------------------------------------------------------------------------------------
@@ -472,29 +544,110 @@ def write_if_changed(path: str, content: str) -> bool:
 
 
 def regenerate() -> dict:
-    """Regenerate all Gen files. Returns {'changed': [...], 'error': str|None}."""
+    """Regenerate all Gen units + the registries (Aiortc.lean, Drivers/*.lean, lakefile.toml).
+
+    Returns {'changed': [...], 'errors': {unit: message}}.  A unit that cannot be generated keeps
+    its previous file; the check turns the error into a broken obligation for every property whose
+    Props module imports that unit."""
     core.use_repo()
     gen_dir = os.path.join(core.LEAN_DIR, "Aiortc", "Gen")
-    res = {"changed": [], "error": None}
-    try:
-        files = {
-            "Constants.lean": gen_constants(),
-            "Serial.lean": gen_serial(),
-        }
-    except CannotTranslate as exc:
-        res["error"] = str(exc)
-        return res
-    except Exception as exc:  # import errors etc.
-        res["error"] = f"{type(exc).__name__}: {exc}"
-        return res
+    res = {"changed": [], "errors": {}}
+    files = {}
+    for unit, fn in UNITS.items():
+        try:
+            files[unit + ".lean"] = "\n".join(HEADER + fn() + ["end Aiortc.Gen"]) + "\n"
+        except CannotTranslate as exc:
+            res["errors"][unit] = str(exc)
+        except Exception as exc:  # import errors etc.
+            res["errors"][unit] = f"{type(exc).__name__}: {exc}"
     with core.build_lock():
         for name, content in files.items():
             if write_if_changed(os.path.join(gen_dir, name), content):
                 res["changed"].append(name)
+        res["changed"] += regen_registry()
     return res
+
+
+def prop_ids() -> list[str]:
+    d = os.path.join(core.VERIF, "harness", "props")
+    return sorted(f[:-3] for f in os.listdir(d) if f.startswith("C") and f.endswith(".py"))
+
+
+def regen_registry() -> list[str]:
+    """Aiortc.lean imports every Gen/Model/Lemmas/Props module; one driver executable per property
+    (`Drivers/Cnn.lean`, dispatching to the Drv modules named in harness/props/Cnn.py: DRIVERS)."""
+    changed = []
+    lean = core.LEAN_DIR
+    mods = []
+    for sub in ("Gen", "Model", "Lemmas", "Props", "Drv"):
+        d = os.path.join(lean, "Aiortc", sub)
+        for root, _dirs, fs in os.walk(d):
+            for f in sorted(fs):
+                if f.endswith(".lean"):
+                    rel = os.path.relpath(os.path.join(root, f), lean)[:-5]
+                    mods.append(rel.replace(os.sep, "."))
+    if write_if_changed(os.path.join(lean, "Aiortc.lean"), "".join(f"import {m}\n" for m in sorted(mods))):
+        changed.append("Aiortc.lean")
+    exes = []
+    import importlib as _il
+    for pid in prop_ids():
+        try:
+            mod = _il.import_module(f"harness.props.{pid}")
+        except Exception:
+            continue
+        drivers = list(getattr(mod, "DRIVERS", []))
+        if not drivers:
+            continue
+        src = [f"import Aiortc.Drv.{d}" for d in drivers]
+        src += [
+            "/-! GENERATED by harness/gen.py. Model driver for %s: one request per line on stdin" % pid,
+            "(`<component> <op> <args…>`), one reply per line on stdout. -/",
+            "open Aiortc.Drv",
+            "",
+            "def dispatch (line : String) : String :=",
+            "  match (line.trimAscii.toString.splitOn \" \").filter (· ≠ \"\") with",
+        ]
+        for d in drivers:
+            src.append(f"  | \"{d.lower()}\" :: rest => {d}.handleTop rest")
+        src += [
+            "  | _ => \"bad-component\"",
+            "",
+            "partial def loop (h : IO.FS.Stream) (out : IO.FS.Stream) : IO Unit := do",
+            "  let line ← h.getLine",
+            "  if line.isEmpty then return ()",
+            "  out.putStrLn (dispatch line)",
+            "  loop h out",
+            "",
+            "def main : IO Unit := do",
+            "  let out ← IO.getStdout",
+            "  loop (← IO.getStdin) out",
+            "  out.flush",
+            "",
+        ]
+        if write_if_changed(os.path.join(lean, "Drivers", f"{pid}.lean"), "\n".join(src)):
+            changed.append(f"Drivers/{pid}.lean")
+        exes.append(pid)
+    lf = [
+        "# GENERATED by harness/gen.py (one model-driver executable per property)",
+        'name = "aiortc"',
+        'version = "0.1.0"',
+        'defaultTargets = ["Aiortc"]',
+        "",
+        "[[lean_lib]]",
+        'name = "Aiortc"',
+        "",
+        "[[lean_lib]]",
+        'name = "Drivers"',
+        "",
+    ]
+    for pid in exes:
+        lf += ["[[lean_exe]]", f'name = "drv_{pid}"', f'root = "Drivers.{pid}"', ""]
+    if write_if_changed(os.path.join(lean, "lakefile.toml"), "\n".join(lf)):
+        changed.append("lakefile.toml")
+    return changed
 
 
 if __name__ == "__main__":
     r = regenerate()
     print(r)
-    sys.exit(1 if r["error"] else 0)
+    sys.exit(1 if r["errors"] else 0)
